@@ -151,6 +151,7 @@ func runScenario(sc scenario, judge bool) outcome {
 		out.other = true
 		return out
 	}
+	can.Settle()
 	stall := can.Max()
 	log := s.Log()
 	var tx []time.Duration
